@@ -295,6 +295,13 @@ func runFlatten(c *Case, sched Schedule, faults []Fault, files map[string]string
 		}
 		an := analysis.New(doc)
 		obs.Doc, obs.An = doc, an
+		if c.Property == "C10" && sched.Seed%2 == 0 {
+			// a caller typically analyzes, queries, flattens and keeps querying the same analyzer: exercise every getter
+			// once BEFORE the rewrite, so that anything a getter memoises is there to go stale
+			for _, call := range allCalls(doc) {
+				invoke(an, doc, call)
+			}
+		}
 		if err := analysis.Flatten(toFlattenOpts(c.Opts, an, c.Root)); err != nil {
 			obs.Failed = true
 			obs.Err = err.Error()
